@@ -114,9 +114,22 @@ TraceNext ==
   \/ TSHdr \/ TSHdrRet \/ TSTrl
   \/ TFault \/ TWFail \/ TServeRet \/ THk \/ TPend \/ THLive \/ TCReg \/ TQuiesce
 
-TraceSpec == TraceInit /\ [][TraceNext]_<<vars, l>>
+\* A line that no action explains is reported and the rest of its scenario is
+\* skipped, so that the remaining scenarios of the batch are still checked.
+NextBegin == IF \E j \in (l + 1)..Len(Trace) : Trace[j].ev = "Begin"
+               THEN CHOOSE j \in (l + 1)..Len(Trace) :
+                      Trace[j].ev = "Begin" /\ \A i \in (l + 1)..(j - 1) : Trace[i].ev # "Begin"
+               ELSE Len(Trace) + 1
+TSkip == /\ l <= Len(Trace)
+         /\ ~ENABLED TraceNext
+         /\ PrintT(<<"TRACE_REJECTED_AT_LINE", l, "of", Len(Trace)>>)
+         /\ l' = NextBegin
+         /\ UNCHANGED vars
 
-\* one state per consumed line plus the initial one
+TraceSpec == TraceInit /\ [][TraceNext \/ TSkip]_<<vars, l>>
+
+\* strict variant (no skipping): one state per consumed line plus the initial one
+StrictSpec == TraceInit /\ [][TraceNext]_<<vars, l>>
 TraceAccepted ==
   LET d == TLCGet("stats").diameter IN
   IF d - 1 = Len(Trace) THEN TRUE
